@@ -8,3 +8,8 @@ def alpha():
 
 def zeta():
     return "pz"
+
+
+for _i in range(16):        # per-case names, see vmod.py
+    globals()["alpha%02d" % _i] = alpha
+    globals()["zeta%02d" % _i] = zeta
